@@ -214,9 +214,10 @@ private:
         return *prop;
     }
     GeometryKernelT<VecT> make_prop() {
-        auto prop = this->template create_shared_property<VecT, Entity::Vertex>("ovm:position", VecT(0));
-        assert(prop.has_value());
-        return *prop;
+        // The position property may already be registered: when the position
+        // property of the copied mesh was made persistent, it has just been
+        // cloned together with the other persistent properties.
+        return this->template request_property<VecT, Entity::Vertex>("ovm:position", VecT(0));
     }
 
 private:
